@@ -10,6 +10,7 @@ import (
 	"os"
 	"runtime"
 	"sort"
+	"strings"
 	"sync"
 	"sync/atomic"
 	"time"
@@ -94,6 +95,7 @@ type phaseReport struct {
 	Note         string                   `json:"note,omitempty"`
 	WallMs       int64                    `json:"wall_ms"`
 	FedDoneMs    int64                    `json:"fed_done_ms,omitempty"`
+	StrandedBFD  int                      `json:"stranded_bfd,omitempty"`
 }
 
 var emitMu sync.Mutex
@@ -638,11 +640,22 @@ func c14LedgerCheck(w *c14World, rep *phaseReport, sum ledgerSummary, fill int, 
 	}
 	rep.Parked = len(parked)
 	var leaked []map[string]any
+	stranded := 0
 	for _, idx := range sum.Held {
 		if _, ok := parked[idx]; !ok {
+			if afterShutdown && strings.HasPrefix(sum.HeldSeqs[idx], "router.(*bfdSend).Send") && !strings.Contains(sum.HeldSeqs[idx], ">") {
+				// A BFD session transmitted while Shutdown was in progress: the
+				// packet sits in the egress queue of a connection whose sender
+				// has already been stopped. Like packets queued for processors
+				// at Shutdown under load, it is stranded by the shutdown order;
+				// counted, not judged.
+				stranded++
+				continue
+			}
 			leaked = append(leaked, map[string]any{"packet": idx, "last_seen": sum.HeldSeqs[idx]})
 		}
 	}
+	rep.StrandedBFD = stranded
 	what := "idle data plane (every goroutine blocked at its loop head)"
 	key := "C14:leak"
 	if afterShutdown {
@@ -653,7 +666,7 @@ func c14LedgerCheck(w *c14World, rep *phaseReport, sum ledgerSummary, fill int, 
 		if len(leaked) > 8 {
 			leaked = leaked[:8]
 		}
-		w.led.violate(key, fmt.Sprintf("%s: %d packet(s) are held by nobody: taken from the pool and never returned (in != out + held)", what, len(sum.Held)-len(parked)),
+		w.led.violate(key, fmt.Sprintf("%s: %d packet(s) are held by nobody: taken from the pool and never returned (in != out + held)", what, len(sum.Held)-len(parked)-stranded),
 			map[string]any{"leaked": leaked, "gets": sum.Gets, "puts": sum.Puts, "parked": len(parked), "desc": w.desc})
 	}
 	if sum.Anomalies > 0 {
@@ -662,7 +675,7 @@ func c14LedgerCheck(w *c14World, rep *phaseReport, sum ledgerSummary, fill int, 
 	if int(sum.Gets-sum.Puts) != len(sum.Held) {
 		w.led.violate("C14:ledger-arithmetic", fmt.Sprintf("gets-puts=%d but %d packets are held", sum.Gets-sum.Puts, len(sum.Held)), nil)
 	}
-	if rep.PoolFill+len(parked) != rep.PoolCap && len(leaked) == 0 {
+	if rep.PoolFill+len(parked)+stranded != rep.PoolCap && len(leaked) == 0 {
 		w.led.violate(key+":pool-fill", fmt.Sprintf("%s: pool fill %d + parked %d != capacity %d", what, rep.PoolFill, len(parked), rep.PoolCap), nil)
 	}
 	if !afterShutdown && len(parked) != rep.ExpectParked {
